@@ -13,6 +13,16 @@
 //                / ProcessEvent) whose handlers record which declaration ran, and the script
 //                command `commanddelay` (Listener::CommandDelay + the event queue).
 //
+//   event <name> <kind> <ns> [h|v|c|a]   where the EventDef object lives: h (default) its own heap object;
+//                v an element of a std::vector<EventDef> without reserve(), c of a con::Container<EventDef>
+//                (both reallocate while they grow: every element is MOVE-CONSTRUCTED to its new place, the
+//                response lists that point at it are re-pointed, as a host completes them once its table has
+//                reached its final place); a: constructed, then MOVE-ASSIGNED onto a moved-from shell left by
+//                an earlier move (or move-constructed when there is no shell yet).
+//   ext <host class> <ev:has>...         new ClassDefExt(class, responses): a class extension; applied by
+//                ClassDefExt::InitClassDef at the end of the next build.  Its responses are identified as
+//                `<1000000 + k>.<index>` (k = number of the extension in this case).
+//
 // Ids: event objects and classes are numbered in construction order (built-ins first).
 // A handler is identified by `<declaring class id>.<index in that class's Responses[]>`.
 #include <morfuse/Script/Class.h>
@@ -26,6 +36,7 @@
 #include <morfuse/Script/NamespaceDef.h>
 #include <morfuse/Script/NamespaceManager.h>
 #include <morfuse/Container/ContainerView.h>
+#include <morfuse/Container/Container.h>
 #include "lineio.h"
 
 #include <algorithm>
@@ -66,7 +77,8 @@ Class* noInstance() { return nullptr; }
 
 NamespaceDef* g_ns[NUM_NS + 1];   // 1..NUM_NS
 
-struct EvRec { const EventDef* def; bool host; std::unique_ptr<std::string> name; };
+// where a host EventDef lives: 'h' own heap object, 'v' element idx of g_vec, 'c' element idx of g_con
+struct EvRec { const EventDef* def; bool host; std::unique_ptr<std::string> name; char store = 'h'; size_t idx = 0; };
 struct ClsRec {
     ClassDef* def;
     bool host;
@@ -74,7 +86,20 @@ struct ClsRec {
     std::unique_ptr<std::vector<ResponseDefClass>> resp;   // host only (stable storage)
     size_t nresp;
     const ResponseDefClass* respBase;
+    std::vector<size_t> respEv;                            // host only: event id of every response
 };
+struct ExtRec {
+    ClassDefExt* ext;
+    std::unique_ptr<std::vector<ResponseDefClass>> resp;
+    size_t nresp;
+    const ResponseDefClass* respBase;
+    std::vector<size_t> respEv;
+};
+std::vector<ExtRec> exts;                      // index = k - 1
+std::vector<EventDef>* g_vec = nullptr;        // grows without reserve(): elements are move-constructed
+con::Container<EventDef>* g_con = nullptr;     // the engine's own growable array: Resize() move-constructs
+std::vector<EventDef*> g_shells;               // moved-from EventDef objects (targets of move assignment)
+constexpr size_t EXT_BASE = 1000000;
 
 std::vector<EvRec> evs;      // index = id - 1
 std::vector<ClsRec> clss;    // index = id - 1
@@ -180,10 +205,18 @@ std::string respTok(const ResponseDefClass* r)
         const ResponseDefClass* b = clss[i].respBase;
         if (r >= b && r < b + clss[i].nresp) return std::to_string(i + 1) + "." + std::to_string(r - b);
     }
+    for (size_t k = 0; k < exts.size(); ++k) {
+        const ResponseDefClass* b = exts[k].respBase;
+        if (r >= b && r < b + exts[k].nresp) return std::to_string(EXT_BASE + k + 1) + "." + std::to_string(r - b);
+    }
     return "?.?";
 }
 bool respIsHost(const ResponseDefClass* r)
 {
+    for (size_t k = 0; k < exts.size(); ++k) {
+        const ResponseDefClass* b = exts[k].respBase;
+        if (r >= b && r < b + exts[k].nresp) return true;
+    }
     for (size_t i = nBuiltinCls; i < clss.size(); ++i) {
         const ResponseDefClass* b = clss[i].respBase;
         if (r >= b && r < b + clss[i].nresp) return true;
@@ -191,10 +224,31 @@ bool respIsHost(const ResponseDefClass* r)
     return false;
 }
 
+// after g_vec / g_con have grown: every resident event may have moved; re-point the records and the
+// response lists (of classes and extensions) that refer to them
+void repoint()
+{
+    for (size_t i = nBuiltinEv; i < evs.size(); ++i) {
+        if (evs[i].store == 'v') evs[i].def = &(*g_vec)[evs[i].idx];
+        else if (evs[i].store == 'c') evs[i].def = &g_con->ObjectAt(evs[i].idx);
+    }
+    for (size_t i = nBuiltinCls; i < clss.size(); ++i)
+        for (size_t j = 0; j < clss[i].respEv.size(); ++j)
+            (*clss[i].resp)[j].event = const_cast<EventDef*>(evs[clss[i].respEv[j] - 1].def);
+    for (auto& x : exts)
+        for (size_t j = 0; j < x.respEv.size(); ++j)
+            (*x.resp)[j].event = const_cast<EventDef*>(evs[x.respEv[j] - 1].def);
+}
+
 void teardownHost()
 {
+    while (!exts.empty()) { delete exts.back().ext; exts.pop_back(); }
     while (clss.size() > nBuiltinCls) { delete clss.back().def; clss.pop_back(); }
-    while (evs.size() > nBuiltinEv) { delete evs.back().def; evs.pop_back(); }
+    while (evs.size() > nBuiltinEv) { if (evs.back().store == 'h') delete evs.back().def; evs.pop_back(); }
+    delete g_vec; g_vec = nullptr;
+    delete g_con; g_con = nullptr;
+    for (EventDef* sh : g_shells) delete sh;
+    g_shells.clear();
     // outside the model: unregistering is not part of the property.  ~EventDef decrements the
     // counter also for duplicates that never incremented it, so put it back where the built-ins left it
     EventDef::defCount = baselineDefCount;
@@ -382,7 +436,7 @@ int main(int argc, char** argv)
             ClassDef* c = builtinClsOrder[bclsCursor];
             size_t n = 0;
             for (const ResponseDefClass* r = c->GetResponseList(); r->event; ++r) ++n;
-            clss.push_back(ClsRec{ c, false, nullptr, nullptr, n, c->GetResponseList() });
+            clss.push_back(ClsRec{ c, false, nullptr, nullptr, n, c->GetResponseList(), {} });
             say("cls " + std::to_string(clss.size()) + " |" + bclsLine("", bclsCursor));
             ++bclsCursor;
             continue;
@@ -397,14 +451,41 @@ int main(int argc, char** argv)
         }
         if (!builtinsDone) { say("bad-op"); continue; }
         if (op == "reset" && t.size() == 1) { teardownHost(); say("ok"); continue; }
-        if (op == "event" && t.size() == 4) {
+        if (op == "event" && (t.size() == 4 || (t.size() == 5 && (t[4] == "h" || t[4] == "v" || t[4] == "c" || t[4] == "a")))) {
             evType_e kind; size_t ns;
             if (!nameOk(t[1]) || !parseKind(t[2], kind) || !parseNat(t[3], ns) || ns > NUM_NS) { say("bad-op"); continue; }
             auto nm = std::make_unique<std::string>(t[1]);
-            const EventDef* e = ns ? new EventDef(*g_ns[ns], nm->c_str(), 0, "", "", "", kind)
+            const char mode = t.size() == 5 ? t[4][0] : 'h';
+            const EventDef* e = nullptr;
+            char store = 'h'; size_t idx = 0;
+            if (mode == 'v') {
+                if (!g_vec) g_vec = new std::vector<EventDef>();
+                if (ns) g_vec->emplace_back(*g_ns[ns], nm->c_str(), 0, "", "", "", kind);
+                else g_vec->emplace_back(nm->c_str(), 0, "", "", "", kind);
+                store = 'v'; idx = g_vec->size() - 1; e = &g_vec->back();
+            } else if (mode == 'c') {
+                if (!g_con) g_con = new con::Container<EventDef>();
+                if (ns) new (*g_con) EventDef(*g_ns[ns], nm->c_str(), 0, "", "", "", kind);
+                else new (*g_con) EventDef(nm->c_str(), 0, "", "", "", kind);
+                store = 'c'; idx = g_con->NumObjects(); e = &g_con->ObjectAt(idx);
+            } else if (mode == 'a') {
+                EventDef* tmp = ns ? new EventDef(*g_ns[ns], nm->c_str(), 0, "", "", "", kind)
                                    : new EventDef(nm->c_str(), 0, "", "", "", kind);
+                if (g_shells.empty()) {
+                    e = new EventDef(std::move(*tmp));            // move construction
+                } else {
+                    EventDef* sh = g_shells.back(); g_shells.pop_back();
+                    *sh = std::move(*tmp);                        // move assignment onto a moved-from shell
+                    e = sh;
+                }
+                g_shells.push_back(tmp);                          // tmp is now a moved-from shell
+            } else {
+                e = ns ? new EventDef(*g_ns[ns], nm->c_str(), 0, "", "", "", kind)
+                       : new EventDef(nm->c_str(), 0, "", "", "", kind);
+            }
             const bool linked = e->next != nullptr || e->prev != nullptr || EventDef::GetHead() == e;
-            evs.push_back(EvRec{ e, true, std::move(nm) });
+            evs.push_back(EvRec{ e, true, std::move(nm), store, idx });
+            if (store != 'h') repoint();
             built = false;
             say("ev " + std::to_string(evs.size()) + " " + std::to_string(e->GetEventNum()) + " " + (linked ? "1" : "0"));
             continue;
@@ -414,6 +495,7 @@ int main(int argc, char** argv)
             if (!parseNat(t[1], parent) || !parseNat(t[2], ns) || parent > clss.size() || ns > NUM_NS) { say("bad-op"); continue; }
             auto resp = std::make_unique<std::vector<ResponseDefClass>>();
             std::vector<std::pair<size_t, size_t>> owners;
+            std::vector<size_t> respEv;
             bool ok = true;
             size_t used = 0;
             for (size_t i = 3; i < t.size() && ok; ++i) {
@@ -422,6 +504,7 @@ int main(int argc, char** argv)
                 if (colon == std::string::npos || !parseNat(t[i].substr(0, colon), ev) || !parseNat(t[i].substr(colon + 1), f) ||
                     ev == 0 || ev > evs.size() || f > 1) { ok = false; break; }
                 ResponseDefClass r;
+                respEv.push_back(ev);
                 r.event = const_cast<EventDef*>(evs[ev - 1].def);
                 if (f) {
                     if (nextHandler + used >= MAX_HANDLERS) { ok = false; break; }
@@ -442,9 +525,46 @@ int main(int argc, char** argv)
                              : new ClassDef(super, nm->c_str(), nullptr, resp->data(), &noInstance);
             const size_t n = resp->size() - 1;
             const ResponseDefClass* base = resp->data();
-            clss.push_back(ClsRec{ c, true, std::move(nm), std::move(resp), n, base });
+            clss.push_back(ClsRec{ c, true, std::move(nm), std::move(resp), n, base, std::move(respEv) });
             built = false;
             say("cls " + std::to_string(clss.size()));
+            continue;
+        }
+        if (op == "ext" && t.size() >= 2) {
+            size_t cls;
+            if (!parseNat(t[1], cls) || cls <= nBuiltinCls || cls > clss.size()) { say("bad-op"); continue; }
+            auto resp = std::make_unique<std::vector<ResponseDefClass>>();
+            std::vector<std::pair<size_t, size_t>> owners;
+            std::vector<size_t> respEv;
+            bool ok = true;
+            size_t used = 0;
+            for (size_t i = 2; i < t.size() && ok; ++i) {
+                const size_t colon = t[i].find(':');
+                size_t ev, f;
+                if (colon == std::string::npos || !parseNat(t[i].substr(0, colon), ev) || !parseNat(t[i].substr(colon + 1), f) ||
+                    ev == 0 || ev > evs.size() || f > 1) { ok = false; break; }
+                ResponseDefClass r;
+                respEv.push_back(ev);
+                r.event = const_cast<EventDef*>(evs[ev - 1].def);
+                if (f) {
+                    if (nextHandler + used >= MAX_HANDLERS) { ok = false; break; }
+                    r.response = static_cast<Response>(handlerTable[nextHandler + used]);
+                    owners.emplace_back(EXT_BASE + exts.size() + 1, i - 2);
+                    ++used;
+                } else r.response = nullptr;
+                resp->push_back(r);
+            }
+            if (!ok) { say("bad-op"); continue; }
+            ResponseDefClass end; end.event = nullptr; end.response = nullptr;
+            resp->push_back(end);
+            nextHandler += used;
+            for (auto& o : owners) handlerOwner.push_back(o);
+            ClassDefExt* x = new ClassDefExt(clss[cls - 1].def, resp->data());
+            const size_t n = resp->size() - 1;
+            const ResponseDefClass* base = resp->data();
+            exts.push_back(ExtRec{ x, std::move(resp), n, base, std::move(respEv) });
+            built = false;
+            say("ext " + std::to_string(exts.size()));
             continue;
         }
         if (op == "init" && t.size() == 1) { say(doInit()); continue; }
